@@ -167,6 +167,8 @@ def run(chk, args):
             a += ["-kinds", "session"]
         if thorough:
             a += ["-fullprepare"]
+        else:
+            a += ["-tokensels", "own,none"]     # quick: token authentication with the own database selected and with none
         futures.append((role, ex.submit(run_harness, binp, a, wd, role)))
 
     code = f_code.result()
